@@ -208,13 +208,18 @@ Spill(k) == IF fs.m = "a" THEN disk \o FirstN(wbuf, k) ELSE Overlay(disk, wat, F
 \* the complete lines are demanded in the file while the stream flushes at line ends and wrote from an empty file on
 WithLines(r, w, keep) == IF keep THEN r @@ [lines |-> LinesOf(w, fs.nl)] ELSE r
 
+(* open; on a write stream that is still open (same object) mpt_stream_open closes it first: everything that       *)
+(* belongs to the old stream is in the file, unfinished bytes are dropped.  The file is looked at after the call. *)
 FOpen(a) ==
-  /\ IsFile /\ fs.st = "closed"
+  LET re == fs.st = "open" IN
+  /\ IsFile
+  /\ fs.st = "closed" \/ (Writing /\ a.via = fs.via)
+  /\ disk' = Buffered
   /\ fs' = [st |-> "open", m |-> a.m, nl |-> a.nl, fl |-> a.fl, buf |-> a.buf, via |-> a.via,
-            pos |-> 0, lin |-> (a.fl = 1 /\ disk = <<>>), sty |-> "none"]
-  /\ want' = disk /\ pend' = <<>> /\ wbuf' = <<>> /\ wat' = 0 /\ rbuf' = <<>>
-  /\ UNCHANGED disk
-  /\ Answer("open", a, [ret |-> "ok"])
+            pos |-> 0, lin |-> (a.fl = 1 /\ Buffered = <<>>), sty |-> "none"]
+  /\ want' = Buffered /\ pend' = <<>> /\ wbuf' = <<>> /\ wat' = 0 /\ rbuf' = <<>>
+  /\ Answer("open", [m |-> a.m, nl |-> a.nl, fl |-> a.fl, buf |-> a.buf, via |-> a.via, re |-> IF re THEN 1 ELSE 0],
+            [ret |-> "ok", disk |-> IF re THEN want ELSE disk])
 
 (* count elements of size part are written at the stream position; e of the buffered bytes go out early *)
 WriteBytes(a, arg, d, e) ==
@@ -435,7 +440,7 @@ ReadRefines == (IsFile /\ Reading) => /\ fs.pos + Len(rbuf) <= MaxOf(Len(disk), 
 ReadIsFile == [][(IsFile /\ obs'.a = "read")
                   => obs'.exp.data = SubSeq(disk, fs.pos + 1, fs.pos + obs'.exp.n * obs'.arg.part)]_vars
 \* after flush and close the file is the file as written
-FlushComplete == (IsFile /\ obs.a \in {"flush", "close"}) => (obs.exp.disk = disk /\ (fs.st = "open" => (Writing => disk = want)))
+FlushComplete == (IsFile /\ obs.a \in {"flush", "close", "open"}) => (obs.exp.disk = disk /\ (fs.st = "open" => (Writing => disk = want)))
 \* a line end adds the documented bytes and nothing else
 EndlExact == [][(IsFile /\ obs'.a = "endl" /\ obs'.exp.ret = "ok")
                  => want' = Overlay(want, WPos, NlStr(fs.nl))]_vars
